@@ -184,6 +184,25 @@ def decode_cache(which):
           [y_full.at((0, t, f)) for f in range(F)], (1, 1, F))))
       ci = A.of(cache['cache_index'])
       cases.append(('cache index after step %d' % t, ci, A([S(t + 1)], ())))
+    # NNX: the same parameters, init_cache + one position per call
+    nm_ = nnx.MultiHeadAttention(num_heads=H, in_features=F, qkv_features=F,
+                                 out_features=F, decode=False, dropout_rate=0.5,
+                                 deterministic=True, rngs=nnx.Rngs(0))
+    # (dropout_rate > 0 with deterministic=True selects flax's own attention path;
+    # with rate 0 nnx defers to jax.nn.dot_product_attention, which is JAX code)
+    for nm in ('query', 'key', 'value', 'out'):
+      getattr(nm_, nm).kernel.value = R(p[nm]['kernel'])
+      getattr(nm_, nm).bias.value = R(p[nm]['bias'])
+    n_full = A.of(nm_(R(x), mask=R(causal) if not sym.CONCRETE['on'] else
+                      NA.make_causal_mask(np.ones((1, Lx))), decode=False))
+    cases.append(('nnx whole sequence == linen', n_full, y_full))
+    nm_.init_cache((1, Lx, F))
+    for t in range(Lx):
+      xt = A([x.at((0, t, f)) for f in range(F)], (1, 1, F))
+      yt = A.of(nm_(R(xt), decode=True))
+      cases.append(('nnx decode step %d == whole sequence' % t, yt, A(
+          [y_full.at((0, t, f)) for f in range(F)], (1, 1, F))))
+    cases.append(('nnx cache index', A.of(nm_.cache_index.value), A([S(Lx)], ())))
   # float saturation: exp(finfo.min) underflows to exactly 0, which is what makes
   # masked positions inert in floats (in the reals it would only be tiny)
   fill = symnp.JNP.finfo(None).min
